@@ -161,8 +161,10 @@ class _Parser(Generic[EXPR]):
 
         operands = [first_operand]
 
+        operand_new_line_ignore = _IS_INSIDE_PARENTHESES if is_inside_parens else _NEXT_EXPR_ON_ANY_LINE
+
         def parse_mandatory_operand_and_append():
-            next_operand = self.parse_w_maybe_infix_ops(_NEXT_EXPR_ON_ANY_LINE,
+            next_operand = self.parse_w_maybe_infix_ops(operand_new_line_ignore,
                                                         infix_ops_levels)
             operands.append(next_operand)
 
